@@ -28,7 +28,7 @@ class RunEnd(BaseException):
 
 class Task:
     __slots__ = ("id", "role", "name", "proc", "lock", "done", "pred", "waiting", "ident", "error",
-                 "prio", "started", "on_done", "kind", "deferred", "timed", "killed")
+                 "prio", "started", "on_done", "kind", "deferred", "timed", "killed", "proc_obj")
 
     def __init__(self, tid, role, name, proc, kind):
         self.id = tid
@@ -49,6 +49,7 @@ class Task:
         self.deferred = False
         self.timed = False
         self.killed = False
+        self.proc_obj = None         # the process object whose run() this task executes (simulated processes)
 
     def __repr__(self):
         return f"<Task {self.id} {self.name}>"
